@@ -41,7 +41,7 @@ def run(names):
             out = {}
             for p in props:
                 t = time.time()
-                r = sh('cd /verif && ./check %s --tier quick' % p)
+                r = sh('cd /verif && VERIF_EVIDENCE_DIR=/verif/out/seeded_evidence ./check %s --tier quick' % p)
                 lines = [l for l in r.stdout.splitlines() if l.startswith('VIOLATION')]
                 out[p] = dict(exit=r.returncode, violation=lines[:1], wall=round(time.time() - t, 1))
         finally:
